@@ -257,11 +257,12 @@ static void copy_auth(Comp& t, const Comp& s) {
 }
 bool resolve(const Comp& B, const Comp& Rin, bool compat, Comp* out, bool guard) {
     if (!B.hasScheme) return false;
-    Comp R = Rin; Comp T;
+    Comp R = Rin; Comp T; bool rooted = true;      // was the path rooted before dot removal (decides the form of the guard)
     if (compat && R.hasScheme && R.scheme == B.scheme) { R.hasScheme = false; R.scheme.clear(); }
     if (R.hasScheme) {
         T.hasScheme = true; T.scheme = R.scheme; copy_auth(T, R);
-        T.path = remove_dots(R.path, R.hasAuth || starts(R.path, "/"));
+        rooted = R.hasAuth || starts(R.path, "/");
+        T.path = remove_dots(R.path, rooted);
         T.hasQuery = R.hasQuery; T.query = R.query;
     } else {
         if (R.hasAuth) {
@@ -269,7 +270,7 @@ bool resolve(const Comp& B, const Comp& Rin, bool compat, Comp* out, bool guard)
         } else {
             copy_auth(T, B);
             if (R.path.empty()) {
-                T.path = B.path;
+                T.path = B.path; rooted = B.hasAuth || starts(B.path, "/");
                 if (R.hasQuery) { T.hasQuery = true; T.query = R.query; } else { T.hasQuery = B.hasQuery; T.query = B.query; }
             } else {
                 if (R.path[0] == '/') T.path = remove_dots(R.path, true);
@@ -277,7 +278,8 @@ bool resolve(const Comp& B, const Comp& Rin, bool compat, Comp* out, bool guard)
                     Str merged;
                     if (B.hasAuth && B.path.empty()) merged = "/" + R.path;
                     else { size_t p = B.path.rfind('/'); merged = (p == Str::npos ? Str() : B.path.substr(0, p + 1)) + R.path; }
-                    T.path = remove_dots(merged, starts(merged, "/"));
+                    rooted = starts(merged, "/");
+                    T.path = remove_dots(merged, rooted);
                 }
                 T.hasQuery = R.hasQuery; T.query = R.query;
             }
@@ -285,7 +287,7 @@ bool resolve(const Comp& B, const Comp& Rin, bool compat, Comp* out, bool guard)
         T.hasScheme = true; T.scheme = B.scheme;
     }
     T.hasFrag = R.hasFrag; T.frag = R.frag;
-    if (guard && !T.hasAuth && starts(T.path, "//")) T.path = "/." + T.path;
+    if (guard && !T.hasAuth && starts(T.path, "//")) T.path = (rooted ? "/." : "./") + T.path;
     *out = T;
     return true;
 }
@@ -361,7 +363,11 @@ StrVec normalize_acceptable_paths(const Comp& in, const Comp& nm) {
         if (first.find(':') != Str::npos) guardOk = true;
         if (m.empty() && !in.path.empty()) guardOk = true;
     }
-    if (guardOk) v.push_back(rooted ? "/." + m : "./" + m);
+    if (guardOk) {
+        v.push_back(rooted ? "/." + m : "./" + m);
+        // a rootless path whose text came to start with "/" may also be written as the absolute path it reads as
+        if (!rooted && starts(m, "//")) v.push_back("/." + m);
+    }
     return v;
 }
 bool has_pct_dot_segment(const Str& path) {
